@@ -110,7 +110,7 @@ impl<T: Debug + Clone + Eq + Ord> Expression<T> {
                 .iter()
                 .map(|e| e.to_cnf())
                 .reduce(|acc, e| Expression::distribute_cnf(&acc, &e))
-                .unwrap(),
+                .unwrap_or_else(|| nnf.clone()), // the empty disjunction stays as it is
             And(es) => And(es.iter().map(|e| e.to_cnf()).collect()).into(),
             _other => nnf,
         }
@@ -154,7 +154,7 @@ impl<T: Debug + Clone + Eq + Ord> Expression<T> {
                 .iter()
                 .map(|e| e.to_dnf())
                 .reduce(|acc, e| Expression::distribute_dnf(&acc, &e))
-                .unwrap(),
+                .unwrap_or_else(|| nnf.clone()), // the empty conjunction stays as it is
             Or(es) => Or(es.iter().map(|e| e.to_dnf()).collect()).into(),
             _other => nnf,
         }
